@@ -72,6 +72,7 @@ type FuncContract struct {
 	Pkg      string
 	File     string
 	Trusted  string
+	Owns     []*Clause
 	Assume   []*Clause // assumed at entry without being checked at call sites (type invariants)
 }
 
@@ -86,6 +87,7 @@ type CallsiteContract struct {
 	Props    []string
 	Pkg      string
 	Name     string
+	InFunc   *regexp.Regexp
 }
 
 type LemmaVar struct {
@@ -532,6 +534,16 @@ func (db *ContractDB) loadContractFile(path, pkg string) error {
 			if curF != nil {
 				curF.Fresh = true
 			}
+		case "owns":
+			// owns <ptr-expr>.<field> : callees that are not handed <ptr-expr> do not write that
+			// field of that object (encapsulation assumption, listed in the evidence)
+			if curF != nil {
+				e, err := parseSpecExpr(rest)
+				if err != nil {
+					return fmt.Errorf("%s: %v", pos, err)
+				}
+				curF.Owns = append(curF.Owns, &Clause{Text: rest, Expr: e, Pos: pos})
+			}
 		case "trusted":
 			// a contract on a repository function that is assumed, not verified (listed in the trusted base)
 			if curF != nil {
@@ -591,6 +603,15 @@ func (db *ContractDB) loadContractFile(path, pkg string) error {
 		case "name":
 			if curC != nil {
 				curC.Name = rest
+			}
+		case "infunc":
+			// restrict a call-site contract to call sites inside functions whose name matches
+			if curC != nil {
+				re, err := regexp.Compile(rest)
+				if err != nil {
+					return fmt.Errorf("%s: %v", pos, err)
+				}
+				curC.InFunc = re
 			}
 		default:
 			return fmt.Errorf("%s: unknown keyword %q", pos, kw)
